@@ -53,6 +53,59 @@ def moddef_table(F, fn):
     return None, fn
 
 
+PREFIX_OR_LUMPING = ("any", "all", "find", "find_map", "position", "rposition", "take_while", "skip_while", "map_while", "max_by_key", "min_by_key",
+                     "take", "skip", "step_by", "first", "last", "next", "nth", "scan", "try_fold", "try_for_each")
+
+
+def visibility_tests_outside_a_per_item_filter(F, anchor):
+    """closures of `anchor` (and of its same-crate helpers) that compare a Visibility and are handed to an adaptor whose answer for
+    one item depends on its neighbours: any/all/find lump the declarations of a name together, take_while/skip_while/map_while cut the
+    list at the first item that fails (a private type declared before a public constructor of the same name hides the constructor).
+    `filter`, `filter_map`, `retain`, a test in a loop body decide item by item."""
+    out = []
+    for q in F.with_helpers(anchor, depth=2):
+        f = F.fns.get(q)
+        if f is None or not f.blocks or "{closure" not in f.path:
+            continue
+        has_vis = any((c_.endswith(("PartialEq>::ne", "PartialEq>::eq", "PartialEq::ne", "PartialEq::eq")) and "Visibility" in (c_ + ((t.get("fn") or {}).get("full", ""))))
+                      for _b, t in f.calls() for c_ in [callee(t) or callee_def(t) or ""])
+        if not has_vis:
+            # a comparison of the fieldless enum compiles to a discriminant comparison when PartialEq is derived and inlined
+            has_vis = any("Visibility" in str(f.local_ty(l) or "") for l in range(len(f.d.get("locals", []))))
+            has_vis = has_vis and any((s_.get("rv") or {}).get("k") in ("discr",) for _b, _i, s_ in f.stmts())
+        if not has_vis:
+            continue
+        parent = F.fns.get(f.path.rsplit("::{closure", 1)[0])
+        if parent is None or not parent.blocks:
+            continue
+        dp = FL.Defs(parent)
+        for _b, t in parent.calls():
+            for a in t["args"]:
+                oa = dp.origin_op(a) if isinstance(a, dict) and "k" not in a else {}
+                if oa.get("k") == "agg" and oa["rv"].get("closure") == f.path:
+                    ad = FL.short(callee(t) or callee_def(t) or "").rsplit("::", 1)[-1]
+                    if ad in PREFIX_OR_LUMPING:
+                        out.append("%s (%s line %s)" % (ad, FL.short(parent.path), t["ln"]))
+    return out
+
+
+def imports_test_visibility_per_declaration(F, res, rule="X18"):
+    """X18 (= C05 S25): `import m.{Name}` brings in every PUBLIC declaration called Name - a name can stand for several (a type and a
+    constructor, a private type and the public constructor of another type). ModuleScope::resolve_import decides declaration by
+    declaration: its visibility test sits in a `filter` (or a loop body), not in an adaptor that stops at the first failing item or
+    answers for the whole list. With take_while, `type Circle { Dot }` declared before `pub type Shape { Circle(Int) }` makes
+    `import shapes.{Circle}` bind nothing: the constructor is neither resolved nor offered, and the answer depends on the order of
+    the top-level items."""
+    ri = F.fns.get("ide::def::scope::ModuleScope::resolve_import")
+    if ri is None or not ri.blocks:
+        res.anchor_missing(rule, "ide::def::scope::ModuleScope::resolve_import")
+        return
+    bad = visibility_tests_outside_a_per_item_filter(F, ri.path)
+    res.ob(rule, "import/visibility-per-declaration", "resolve_import tests the visibility of each declaration of the imported name on its own (filter / loop body), "
+           "not through take_while / skip_while / any / find / first ..", not bad, where=ri.loc(),
+           how="per-declaration filter" if not bad else "visibility tested inside %s" % bad)
+
+
 def run(F, res, tier):
     names = F.fn(RS + "values_names_in_scope")
     look = F.fn(RS + "resolve_name")
@@ -106,6 +159,7 @@ def run(F, res, tier):
            first_wins, where=add.loc(), how="insert only into a vacant entry: %s" % first_wins)
     extra_rules(F, res)
     opaque_constructors_private(F, res)
+    imports_test_visibility_per_declaration(F, res)
     # ---- X2
     cd = F.fn("ide::ide::completion::complete_dot")
     fs = [F.fns[p] for p in F.with_closures(cd.path)]
@@ -160,7 +214,7 @@ def run(F, res, tier):
                 oa = dp.origin_op(a) if isinstance(a, dict) and "k" not in a else {}
                 if oa.get("k") == "agg" and oa["rv"].get("closure") == f.path:
                     ad = FL.short(callee(t) or callee_def(t) or "").rsplit("::", 1)[-1]
-                    if ad in ("any", "all", "find", "find_map", "position", "take_while", "skip_while", "max_by_key", "min_by_key"):
+                    if ad in PREFIX_OR_LUMPING:
                         lumped.append("%s (line %s)" % (ad, t["ln"]))
     res.ob("X2", "dot/visibility-per-declaration", "the visibility of a member offered after `module.` is that declaration's own (the test is not an any / all / "
            "find over the declarations that share a name)", not lumped, where=cd.loc(), how="per-declaration filter" if not lumped else "visibility tested inside %s" % lumped)
